@@ -48,7 +48,11 @@ for w in (4, 8, 2, 1):
        flags=["--no-malloc-may-fail"], gi_flags=["--no-malloc-may-fail"], timeout=900, trusted=PIO_TRUST,
        tier="quick" if w == 4 else "thorough", **PIO)
 # (1) the odometer
-ob("NCvario", "C03", entry="h_NCvario", enforce="H4_NCvario", mode="bounded",
-   bound="rank 1..3, extents <= 4, edges 0..3, start -1..5, numrecs <= 4, element size 4; fixed-size and record variables, read and write",
-   replace=["hdf_get_vp_aid", "hdf_xdr_NCvdata"], unwind=14, cex_unwind=14, defines=["PGIO_VARIO", "MAXR=3", "C03_W=4"],
-   flags=["--no-malloc-may-fail"], gi_flags=["--no-malloc-may-fail"], timeout=1500, trusted=PIO_TRUST + ["hdf_xdr_NCvdata (run logger: contract preconditions are the checks)"], **PIO)
+VA = dict(entry="h_NCvario", enforce="H4_NCvario", mode="bounded", replace=["hdf_get_vp_aid", "hdf_xdr_NCvdata"],
+          flags=["--no-malloc-may-fail"], gi_flags=["--no-malloc-may-fail"],
+          trusted=PIO_TRUST + ["hdf_xdr_NCvdata (run logger: contract preconditions are the checks)"], **PIO)
+ob("NCvario_r2", "C03", bound="rank 1..2, extents <= 4, edges 0..3, start -1..5, numrecs <= 4, element size 4; fixed-size and "
+   "record variables, read and write", unwind=12, cex_unwind=12, defines=["PGIO_VARIO", "MAXR=2", "C03_W=4"], timeout=900, **VA)
+ob("NCvario_r3", "C03", bound="rank 1..3, extents <= 4, edges 0..3, start -1..5, numrecs <= 4, element size 4; fixed-size and "
+   "record variables, read and write", unwind=14, cex_unwind=14, defines=["PGIO_VARIO", "MAXR=3", "C03_W=4"], timeout=3000,
+   tier="thorough", **VA)
